@@ -17,7 +17,7 @@ T = {
  "C09": ("exploration", "min_cost_flow / network_simplex / solve_assignment contracts vs exact successive-shortest-path oracle with potentials.", "contract RAC vs certified min-cost-flow oracle"),
  "C10": ("exploration", "solve_hungarian: optimality certificate proved deductively for all matrices (403 obligations; two paper lemmas close the argument, termination not proved); the top-level contract (matching shape, objective = sum, optimal for min and max) is also executed on enumerated / ladder / history inputs vs exact oracles.", "pyvc proof of the dual certificate + contract RAC vs exact assignment oracles"),
  "C11": ("exploration", "shortest-path solver contracts (distance = delta, INFEASIBLE/UNBOUNDED verdicts, path validity, mutual agreement) vs exact oracle on all small digraphs/grids.", "contract RAC vs exact shortest-path oracle"),
- "C12": ("exploration", "adapter(args) ~ python_impl(args) for the nine accelerated functions with the extension rebuilt from rust/; Rust kernels are external (no Rust verifier installed).", "differential contract RAC python vs rebuilt rust extension"),
+ "C12": ("exploration", "back-end selection get_backend proved deductively for every request value and for an installation with or without the extension (the answer is 'rust' or 'python', and 'rust' only when the extension is importable; the bounded no-extension family observes the same for the request values it tries; 8 obligations). adapter(args) ~ python_impl(args) for the nine accelerated functions is decided by executing the contract with the extension rebuilt from rust/; Rust kernels are external (no Rust verifier installed).", "pyvc proof of the dispatch contract + differential contract RAC python vs rebuilt rust extension"),
  "C13": ("exploration", "kruskal/prim contracts (spanning, acyclic, objective, minimal, statuses) vs spanning-tree enumeration / independent Prim.", "contract RAC vs MST oracles"),
  "C14": ("exploration", "topological_sort (Kahn) proved deductively for all node lists of distinct labels and all neighbour functions: OPTIMAL comes with a permutation of the nodes in which every offered edge between nodes points forward, INFEASIBLE with a non-empty set of nodes each having an offered edge from another of them (204 obligations; termination not proved). strongly_connected_components, condense and the *_edges wrappers have no contract within reach (closures over recursion): their contracts are executed vs Boolean transitive closure on all small digraphs, ladders and presentation families.", "pyvc proof of Kahn's counting invariant + contract RAC vs transitive-closure oracle"),
  "C15": ("exploration", "definitions of articulation points, bridges, k-cores, PageRank equation, Louvain partition/modularity as executable postconditions on all small graphs.", "contract RAC vs brute-force definitions"),
@@ -35,6 +35,7 @@ PROVED = {
  "C09": "proved: network_simplex._residual",
  "C10": "proved: solve_hungarian optimality certificate (dual-feasible potentials of the zero-padded matrix, tight row-perfect matching, assignment = its restriction, objective = sum of the original entries, no arithmetic on +-inf), assignment_cost; weak duality and the padding argument are paper lemmas",
  "C11": "proved: dijkstra and astar (weight 1, consistent heuristic) real path AND optimality / infeasibility certificate, bfs real path AND minimal-length certificate by levels, dfs real path AND completeness certificate (INFEASIBLE only with a closed goal-free visited set), bellman_ford distance certificate, reconstruct_path, _reconstruct_indexed; no arithmetic on +-inf under finite weights",
+ "C12": "proved: rust.get_backend (answers 'rust' or 'python', 'rust' only when the extension is importable, for every request value; rust_available by assumed contract); adapters and kernels bounded / external only",
  "C13": "proved: kruskal structure via the UnionFind contract, prim grows one tree of input edges with objective = weight sum, check_positive, check_edge_nodes (minimality: bounded only)",
  "C14": "proved: topological_sort (answer = permutation of the nodes with every offered edge forward, or INFEASIBLE with a closed set of never-output nodes each having a never-output predecessor; in_degree == number of pending edge occurrences as loop invariant); 'forward order => acyclic' and 'such a set => cycle' are paper lemmas; SCC / condense bounded only",
  "C15": "proved: kcore filter (kcore_decomposition by assumed contract)",
